@@ -1,6 +1,7 @@
 package engine
 
 import (
+	"sort"
 	"encoding/binary"
 	"encoding/json"
 	"fmt"
@@ -26,6 +27,9 @@ type CatEntry struct {
 	Deleted bool   `json:"deleted"`
 	Items   int    `json:"items"`
 	Count   int    `json:"count"`
+	// what does not belong into a meta-entity: properties outside the hub's dataset namespace, list-valued name / items /
+	// references (two versions of the meta-entity merged into one)
+	Foreign []string `json:"foreign,omitempty"`
 }
 
 // Adapter is one way of driving the hub's API.
@@ -168,6 +172,20 @@ func (GoAdapter) Catalogue(s *Session) (map[string]CatEntry, error) {
 		if f, ok := e.Properties[info.ItemsKey].(float64); ok {
 			ce.Items = int(f)
 		}
+		ce.Foreign = nil
+		for k, v := range e.Properties {
+			if _, list := v.([]interface{}); list && (k == info.ItemsKey || k == info.NameKey) {
+				ce.Foreign = append(ce.Foreign, k+" is a list")
+			} else if !strings.HasPrefix(k, info.DatasetPrefix+":") {
+				ce.Foreign = append(ce.Foreign, k)
+			}
+		}
+		for k, v := range e.References {
+			if _, list := v.([]interface{}); list {
+				ce.Foreign = append(ce.Foreign, "reference "+k+" is a list")
+			}
+		}
+		sort.Strings(ce.Foreign)
 		out[parts[1]] = ce
 		return nil
 	})
